@@ -528,7 +528,7 @@ def _package_table(prog: Program, ctx: Ctx) -> None:
     else:
         # a slice of the three-module packages: a defines x and then star-imports, b is anything, c has no star import
         work += [("abc", g, True) for g in packages("abc") if g[0][0] == "attr" and g[0][1] is not None and g[2][1] is None]
-    jobs = min(16 if thorough else 4, os.cpu_count() or 4)
+    jobs = min(16 if thorough else 8, os.cpu_count() or 4)
     with ProcessPoolExecutor(max_workers=jobs) as ex:
         results = list(ex.map(_pkg_chunk, [(dict(prog.overlay), work[i::jobs]) for i in range(jobs)]))
     n = sum(r[0] for r in results)
@@ -573,7 +573,7 @@ def _graph_table(prog: Program, ctx: Ctx) -> None:
                                                 ((0, 1, 2),) if any(d[0] == "through" for d in g) else ((0, 1, 2), (2, 1, 0)))]
     if thorough:
         work += [(g, o) for g in graphs(4) for o in ((0, 1, 2, 3), (3, 2, 1, 0))]
-    jobs = min(16 if thorough else 4, os.cpu_count() or 4)
+    jobs = min(16 if thorough else 8, os.cpu_count() or 4)
     with ProcessPoolExecutor(max_workers=jobs) as ex:
         results = list(ex.map(_graph_chunk, [(dict(prog.overlay), work[i::jobs]) for i in range(jobs)]))
     n = sum(r[0] for r in results)
